@@ -8,7 +8,8 @@ import oracles as O
 PROPERTY = "C09"
 LEVEL = "model_checking"
 BUDGET = {"quick": 240, "thorough": 2400}
-BOUNDS = {"quick": "URL('x://' + netloc + '/p?q#f') for all netloc texts of <= 3 code points and authority skeletons with <= 3 holes; URLs from "
+BOUNDS = {"quick": "URL('x://' + netloc + '/p?q#f') for all netloc texts of <= 3 code points and authority skeletons with <= 3 holes; the same in "
+                   "front of an empty path and of a bare query (netloc texts <= 2, three delimiter skeletons); URLs from "
                    "build() and from each modifier with a 1-code-point argument; every accessor (by introspection), ==, hash, str",
           "thorough": "netloc texts of <= 4 code points; skeletons with <= 4 holes; 2-code-point modifier arguments"}
 ASSUMPTIONS = ["the pickle protocol is executed by hand on symbolic state (__getstate__ -> URL.__new__(URL) -> __setstate__); the real "
@@ -88,15 +89,15 @@ def compare(ctx, u, slot, text=None):
                     ctx.check("eager-equals-unpickled:" + name, same(call(lambda: getattr(u, name)), call(lambda: getattr(v, name))), nm)
 
 
-def h_netloc(ctx, skeleton, slot, scheme="x"):
+def h_netloc(ctx, skeleton, slot, scheme="x", tail="/p?q#f"):
     P = ctx.P
     nl = U.text(ctx, skeleton)
     ctx.assume(all_of([c not in "/?#\t\r\n" for c in nl]) if len(nl) else True, "hole is authority text")
-    r = call(P.URL, scheme + "://" + nl + "/p?q#f")
+    r = call(P.URL, scheme + "://" + nl + tail)
     ctx.observe("URL", outcome(r))
     if r[0] != "ok":
         return
-    compare(ctx, r[1], slot, scheme + "://" + nl + "/p?q#f")
+    compare(ctx, r[1], slot, scheme + "://" + nl + tail)
 
 
 def h_plain(ctx, text, slot):
@@ -139,6 +140,12 @@ def families(tier):
             fams.append(Family("netloc/%s/accessors-%d" % (nm, slot), h_netloc, dict(skeleton=sk, slot=slot)))
     for nm, sk in sks[:4]:
         fams.append(Family("netloc-http/%s" % nm, h_netloc, dict(skeleton=sk, slot=0, scheme="http")))
+    # the same authorities in front of an empty path (the '/' default is decided by the authority) and of a bare query
+    for nm, sk in sks:
+        if nm in ("free1", "free2", "delims", "user-port", "empty-host") or not q:
+            for tn, tail in (("nopath", ""), ("query-only", "?q")):
+                for slot in range(NSLOTS):
+                    fams.append(Family("netloc-%s/%s/accessors-%d" % (tn, nm, slot), h_netloc, dict(skeleton=sk, slot=slot, tail=tail)))
     plain = ["", "/", "?q", "#f", "mailto:a@b", "http://h", "http://h:80", "//h?q", "http://[::1]:8/p", "http://ex%41mple.com/%7e?%61=%3D#%2f",
              "x://:80", "//u@", "//@", "x://u:p@:1/a", "//[x:x:%2FA]", "http://[v1.x]/p", "http://[::1%25eth0]:8/",
              "mailto:", "about:#top", "//h", "http://ＥＸＡＭＰＬＥ.com/p", "http://exa\u00admple.de/", "http://bücher.example/ü?ü#ü"]
